@@ -220,7 +220,8 @@ def f_outer_join_nonstrict_computed_column(prog, idxs, ctx):
                 s2 = steps[j]
                 if s2["verb"] == "mutate":
                     for _n, e in s2["kw"]:
-                        if not strict(e):
+                        # (pure constants are detected by requires_subquery and compiled through a subquery: not this finding)
+                        if has_col(e) and not strict(e):
                             return True
     return False
 
